@@ -33,10 +33,21 @@ type verifC02Action struct {
 	C  int    `json:"c"`
 	B  string `json:"b"`
 	PV string `json:"pv"` // panic: kind of the panic value
+	// w: instead of B, Rep.N times the byte Rep.B in ONE Write call
+	Rep *struct {
+		B int `json:"b"`
+		N int `json:"n"`
+	} `json:"rep"`
 }
 
 type verifC02Case struct {
-	Kind string `json:"kind"` // e2e | e2em
+	Kind string `json:"kind"` // e2e | e2em | e2ec
+	// e2ec: configuration combinations (server-wide / route timeout, verbose log handler) and large bodies
+	GTimeoutMs int64 `json:"gtimeout_ms"` // Config.Timeout
+	RTimeoutMs int64 `json:"rtimeout_ms"` // WithTimeout on the route, 0 = option absent
+	Verbose    bool  `json:"verbose"`     // Config.Verbose: DetailedLogHandler instead of LogHandler
+	HoldMs     int64 `json:"hold_ms"`     // the handler is kept parked in front of action K for that long (0: never parked)
+	K          int   `json:"k"`
 	// e2em: several requests through ONE engine chain / route
 	MReqs     []verifC02MReq   `json:"mreqs"`
 	MOps      []verifC02MOp    `json:"mops"`
@@ -148,7 +159,11 @@ func verifC02Do(w http.ResponseWriter, a verifC02Action) string {
 		w.WriteHeader(a.C)
 		return "ok"
 	case "w":
-		n, err := w.Write([]byte(a.B))
+		data := []byte(a.B)
+		if a.Rep != nil {
+			data = bytes.Repeat([]byte{byte(a.Rep.B)}, a.Rep.N)
+		}
+		n, err := w.Write(data)
 		switch {
 		case err == nil:
 			return "w:" + strconv.Itoa(n)
@@ -488,12 +503,160 @@ func verifC02RunMulti(c *verifC02Case) (obs map[string]any, valid bool) {
 	return map[string]any{"reqs": out, "max_inside": maxInside}, valid
 }
 
+// run-length encoding of a (possibly large) body: [[byte, count], ...]
+func verifC02RLE(b []byte) [][2]int {
+	out := [][2]int{}
+	for i := 0; i < len(b); {
+		j := i
+		for j < len(b) && b[j] == b[i] {
+			j++
+		}
+		out = append(out, [2]int{int(b[i]), j - i})
+		i = j
+	}
+	return out
+}
+
+// verifC02RunConfig: one request through the chain engine.bindRoute builds for the given combination of server-wide
+// timeout, route timeout and log handler. The scripted handler may be kept parked in front of action K for HoldMs:
+// whether the client is answered at a deadline or only after the release is the observation. valid=false: a timer
+// fired before the handler reached its park/end although the schedule needs the actions before it done (retry).
+func verifC02RunConfig(c *verifC02Case, k int) (obs map[string]any, valid bool) {
+	var (
+		mu     sync.Mutex
+		trace  []string
+		live   = true
+		parked = make(chan struct{}, 1)
+		hexit  = make(chan struct{})
+	)
+	release := make(chan struct{})
+	hold := time.Duration(c.HoldMs) * time.Millisecond
+	h := func(w http.ResponseWriter, r *http.Request) {
+		defer close(hexit)
+		check := func() {
+			mu.Lock()
+			live = r.Context().Err() == nil
+			mu.Unlock()
+		}
+		park := func() {
+			check()
+			parked <- struct{}{}
+			<-release
+		}
+		for i, a := range c.Acts {
+			if hold > 0 && i == k {
+				park()
+			}
+			mu.Lock()
+			trace = append(trace, "panic")
+			mu.Unlock()
+			out := verifC02Do(w, a)
+			mu.Lock()
+			trace[i] = out
+			mu.Unlock()
+		}
+		if hold > 0 && k >= len(c.Acts) {
+			park()
+		} else if hold == 0 {
+			check()
+		}
+	}
+	ng := newEngine(Config{Timeout: c.GTimeoutMs, Verbose: c.Verbose})
+	fr := featuredRoutes{routes: []Route{{Method: http.MethodPost, Path: "/verif", Handler: h}}}
+	if c.RTimeoutMs > 0 {
+		WithTimeout(time.Duration(c.RTimeoutMs) * time.Millisecond)(&fr) // the route option, as AddRoutes applies it
+	}
+	ng.addRoutes(fr)
+	rt := router.NewRouter()
+	if err := ng.bindRoutes(rt); err != nil {
+		return map[string]any{"error": err.Error()}, true
+	}
+	srv := httptest.NewServer(rt)
+	defer srv.Close()
+
+	type result struct {
+		status int
+		hdr    []verifC02Hdr
+		body   []byte
+		err    error
+	}
+	resc := make(chan result, 1)
+	go func() {
+		resp, err := http.Post(srv.URL+"/verif", "application/octet-stream", bytes.NewReader(nil))
+		if err != nil {
+			resc <- result{err: err}
+			return
+		}
+		defer resp.Body.Close()
+		b, err := io.ReadAll(resp.Body)
+		resc <- result{status: resp.StatusCode, hdr: verifC02Snap(resp.Header), body: b, err: err}
+	}()
+
+	valid = true
+	var res result
+	got, prompt, wasParked := false, false, false
+	if hold > 0 {
+		select {
+		case <-parked:
+			wasParked = true
+			mu.Lock()
+			valid = live
+			mu.Unlock()
+			select {
+			case res = <-resc: // answered while the handler is still parked: some deadline did it
+				got, prompt = true, true
+			case <-time.After(hold):
+			}
+			close(release)
+		case <-hexit: // the handler ended (panicked) before its park
+		case <-time.After(verifC02HangLimit):
+			panic("verif: hung: handler neither parked nor finished")
+		}
+	}
+	if !got {
+		select {
+		case res = <-resc:
+		case <-time.After(verifC02HangLimit):
+			panic("verif: hung: no response")
+		}
+	}
+	select {
+	case <-hexit:
+	case <-time.After(verifC02HangLimit):
+		panic("verif: hung: handler did not finish")
+	}
+	mu.Lock()
+	tr := append([]string{}, trace...)
+	if !wasParked && !live {
+		valid = false // a deadline passed before the unparked handler had finished
+	}
+	mu.Unlock()
+	if res.err != nil {
+		return map[string]any{"client_error": res.err.Error(), "trace": tr}, valid
+	}
+	return map[string]any{"resp": map[string]any{"status": res.status, "h": res.hdr, "rle": verifC02RLE(res.body), "len": len(res.body)},
+		"trace": tr, "prompt": prompt, "parked": wasParked}, valid
+}
+
 func TestVerifDriverC02(t *testing.T) {
 	logx.Disable()
 	verifdrv.Run(t, func(raw json.RawMessage) any {
 		var c verifC02Case
 		if err := json.Unmarshal(raw, &c); err != nil {
 			return map[string]any{"error": err.Error()}
+		}
+		if c.Kind == "e2ec" {
+			var obs map[string]any
+			for attempt := 0; attempt < 4; attempt++ {
+				var valid bool
+				obs, valid = verifC02RunConfig(&c, c.K)
+				obs["retries"] = attempt
+				if valid {
+					return obs
+				}
+			}
+			obs["gave_up"] = true
+			return obs
 		}
 		if c.Kind == "e2em" {
 			var obs map[string]any
